@@ -5,8 +5,11 @@ Local Open Scope N_scope.
 Inductive case :=
 | CDirect (ns : list N) (obs : list (option nerr)) (wfinal : list N)
     (* setNonce called directly, from the empty window *)
-| CSys (rs : list req) (obs : list rres) (final : list (N * list N)).
+| CSys (rs : list req) (obs : list rres) (final : list (N * list N))
     (* signed requests executed through batchExecute / executeTasks on the real chaincode *)
+| CSysL (legacy : list (N * N)) (rs : list req) (obs : list rres) (final : list (N * list N)).
+    (* the same on a ledger where some senders still have a nonce record in the old format: one number, the newest
+       accepted nonce (read as a window of that one entry) *)
 
 Definition store_list (s : nstore) : list (N * list N) := merge_sort kle (map_to_list s).
 
@@ -15,6 +18,8 @@ Definition corr (c : case) : bool :=
   | CDirect ns obs wf => let '(w, es) := w_run [] ns in bool_decide (es = obs) && bool_decide (w = wf)
   | CSys rs obs fin => let '(s, xs) := exec_run ∅ rs in
                        bool_decide (xs = obs) && bool_decide (store_list s = fin)
+  | CSysL leg rs obs fin => let '(s, xs) := exec_run (list_to_map (List.map (fun p => (fst p, [snd p])) leg)) rs in
+                            bool_decide (xs = obs) && bool_decide (store_list s = fin)
   end.
 
 (* specification of the whole system: per sender, every nonce ever accepted *)
@@ -47,6 +52,7 @@ Definition holds (c : case) : bool :=
   match c with
   | CDirect ns obs _ => bool_decide (snd (h_run [] ns) = obs)
   | CSys rs obs _ => bool_decide (spec_sys ∅ rs = obs) && no_double [] rs obs
+  | CSysL leg rs obs _ => bool_decide (spec_sys (list_to_map (List.map (fun p => (fst p, [snd p])) leg)) rs = obs) && no_double leg rs obs
   end.
 
 (* path labels: which branch of setNonce each attempt takes (bit set over the history) *)
@@ -72,4 +78,5 @@ Definition label (c : case) : N :=
   match c with
   | CDirect ns _ _ => label_w [] ns 0
   | CSys rs _ _ => 512
+  | CSysL _ _ _ _ => 1024
   end.
